@@ -221,12 +221,21 @@ class Recorder:
         for cls, name, orig in self.saved: setattr(cls, name, orig)
 
 
-def run_recorded(cfg):
+def run_recorded(cfg, zoo=False):
+    """ zoo=True: cfg is in harness/impl.py format (an entry of harness/zoo.py with an ss.Pregnancy module) """
     probe = make_recorder()
     with Recorder() as rec:
-        sim = build_sim(cfg, probe)
+        if zoo:
+            from harness import impl
+            sim = impl.build_sim(cfg, extra_analyzers=[probe])
+        else:
+            sim = build_sim(cfg, probe)
         sim.init(); sim.run()
-    return sim, rec.events, sim.analyzers[0].snaps
+    return sim, rec.events, find_probe(sim).snaps
+
+
+def find_probe(sim):
+    return [a for a in sim.analyzers.values() if hasattr(a, 'snaps')][0]
 
 
 # ---------------------------------------------------------------------------
@@ -420,6 +429,48 @@ def oracle_snapshot(ti, s):
     return fails
 
 
+DAYS = dict(day=1.0, week=7.0, month=30.4375, year=365.25)   # starsim's documented unit lengths (a year is 365.25 days)
+
+
+def step_years(cfg):
+    """ the step length of the SIMULATION in years, from the configuration alone (own and impl.py format: unit, dt) """
+    return float(cfg.get('dt', 1.0)) * DAYS[cfg.get('unit') or 'year'] / DAYS['year']
+
+
+def age_tol(*ages):
+    """ ages live in float32 storage: one addition rounds by at most half a unit in the last place of the result """
+    return float(np.spacing(np.float32(max(abs(float(a)) for a in ages)))) + 1e-9
+
+
+def ageing_fails(pti, ps, ti, s, dty):
+    """ every agent alive at the analyzer call of step pti and of step ti = pti + 1 aged by the step length in years
+        (ageing happens at the end of step pti, after the deaths of that step were resolved) """
+    for u in range(ps['n']):
+        if ps['alive'][u] and s['alive'][u] and ps['active'][u]:
+            d = s['age'][u] - ps['age'][u]
+            if abs(d - dty) > age_tol(s['age'][u], ps['age'][u]):
+                return [(dict(oracle='ageing'), f"agent {u} aged {d:.7f} between ti={pti} and ti={ti}; the step is {dty:.7f} years")]
+    return []
+
+
+def expected_pars(cfg, zoo, code):
+    """ step length, gestation and age limits re-derived from the configuration (not read back from the module) wherever
+        the configuration determines them: the module steps on the simulation's timeline in every own-format configuration
+        and in every zoo entry whose pregnancy dict has no time keys of its own; otherwise the values read from the
+        module (`code`) are kept. """
+    p = dict(code)
+    p['dty'] = step_years(cfg)
+    if zoo:
+        d = [x for x in cfg.get('demographics', []) if x.get('type') == 'pregnancy'][0]
+        if any(k in d for k in ('dt', 'unit', 'start', 'stop')) or (cfg.get('unit') or 'year') != 'year':
+            return p     # a module timeline of its own: gestation in module steps as the module reports it
+        gy, lo, hi = 0.75, 15.0, 50.0      # the documented defaults: ss.years(0.75), min_age 15, max_age 50
+    else:
+        gy, lo, hi = float(cfg['dur_pregnancy']), float(cfg['min_age']), float(cfg['max_age'])
+    p.update(gy=gy, g=gy / p['dty'], minage=lo, maxage=hi)
+    return p
+
+
 def oracle_history(cfg, events, snaps, pars):
     fails = []
     g = pars['g']; dty = pars['dty']
@@ -434,7 +485,7 @@ def oracle_history(cfg, events, snaps, pars):
             if m >= pre['n'] or not pre['active'][m]: why = 'not an active agent'
             elif not pre['female'][m]: why = 'male'
             elif not pre['alive'][m]: why = 'dead'
-            elif pre['age'][m] < cfg['min_age'] - TOL_AGE or pre['age'][m] > cfg['max_age'] + TOL_AGE: why = f"aged {pre['age'][m]:.2f}, outside [{cfg['min_age']}, {cfg['max_age']}]"
+            elif pre['age'][m] < pars['minage'] - TOL_AGE or pre['age'][m] > pars['maxage'] + TOL_AGE: why = f"aged {pre['age'][m]:.2f}, outside [{pars['minage']:g}, {pars['maxage']:g}]"
             elif pre['pregnant'][m] and not (pre['tidel'][m] <= ev['ti']): why = 'already pregnant'
             elif pre['postpartum'][m] and not (pre['tipp'][m] <= ev['ti']): why = 'post-partum (not fecund)'
             elif pre['pregnant'][m] and pre['tidel'][m] <= ev['ti'] and not (pre['tipp'][m] <= ev['ti']): why = 'delivering in this step (post-partum)'
@@ -474,11 +525,7 @@ def oracle_history(cfg, events, snaps, pars):
                                 fails.append((dict(oracle='age-at-delivery'), f"child {int(c)} of {m} is {age:.4f} years old at delivery (ti={ti}); expected within one step ({dty:.4f}) of 0"))
                 if ps['pregnant'][m] and ps['active'][m] and s['active'][m] and ps['tidel'][m] == ps['tidel'][m] and ps['tidel'][m] <= pti - 1e-9 and False:
                     pass
-            for u in range(ps['n']):
-                if ps['alive'][u] and s['alive'][u] and ps['active'][u]:
-                    # ageing happened at the end of step pti
-                    if abs((s['age'][u] - ps['age'][u]) - dty) > TOL_AGE:
-                        fails.append((dict(oracle='ageing'), f"agent {u} aged {s['age'][u] - ps['age'][u]:.5f} between ti={pti} and ti={ti}; dt_year = {dty:.5f}")); break
+            fails += ageing_fails(pti, ps, ti, s, dty)
         # overdue pregnancies: pregnant with ti_delivery <= ti after the step's update_states
         for m in range(n):
             if s['pregnant'][m] and s['active'][m] and s['tidel'][m] == s['tidel'][m] and s['tidel'][m] <= ti - 1e-9:
@@ -493,9 +540,9 @@ def oracle_history(cfg, events, snaps, pars):
     return fails
 
 
-def run_oracle(cfg):
-    sim, events, snaps = run_recorded(cfg)
-    pars = pars_of(sim)
+def run_oracle(cfg, zoo=False):
+    sim, events, snaps = run_recorded(cfg, zoo=zoo)
+    pars = expected_pars(cfg, zoo, pars_of(sim))
     fails = []
     for ti, s in snaps:
         fails += oracle_snapshot(ti, s)
@@ -509,49 +556,160 @@ def run_oracle(cfg):
 
 
 # ---------------------------------------------------------------------------
+# the shared scenario zoo (harness/zoo.py, harness/impl.py configuration format)
+
+def has_pregnancy(cfg):
+    return any(d.get('type') == 'pregnancy' for d in cfg.get('demographics', []))
+
+
+def zoo_entries():
+    """ [(name, cfg)]: every entry of the zoo, with ageing enabled.  Entries with a demographics module age by default and
+        run unchanged; the others (ageing is off by default without demographics) run with the documented sim parameter
+        use_aging=True, so that the ageing clause is evaluated for every unit / dt / start / own-timeline combination
+        of the zoo (a sim with ageing off is outside the property: "with ageing enabled"). """
+    from harness import zoo
+    out = []
+    for name, cfg in zoo.configs():
+        if not cfg.get('demographics') and cfg.get('use_aging') is None:
+            cfg['use_aging'] = True
+        out.append((name, cfg))
+    return out
+
+
+def people_snapshot(sim):
+    ppl = sim.people
+    n = int(ppl.uid.len_used)
+    au = set(int(u) for u in ppl.auids)
+    return dict(n=n, active=np.array([u in au for u in range(n)]), alive=np.asarray(ppl.alive.raw[:n]).astype(bool),
+                age=np.asarray(ppl.age.raw[:n]).astype(float), parent=np.asarray(ppl.parent.raw[:n]).copy())
+
+
+def run_zoo_plain(cfg):
+    """ an entry WITHOUT ss.Pregnancy: ageing per step of every living agent, and agents created during the run (Births)
+        enter at age zero.  -> (fails, aged: ageing was on) """
+    import starsim as ss
+    from harness import impl
+
+    class AgeProbe(ss.Analyzer):
+        def __init__(self):
+            super().__init__()
+            self.snaps = []
+        def step(self):
+            self.snaps.append((int(self.sim.ti), people_snapshot(self.sim)))
+
+    sim = impl.build_sim(cfg, extra_analyzers=[AgeProbe()])
+    sim.init()
+    if not sim.pars.use_aging: return [], False
+    n0 = int(sim.people.uid.len_used)
+    sim.run()
+    snaps = find_probe(sim).snaps
+    dty = step_years(cfg)
+    fails = []; prev = None; known = n0
+    for ti, s in snaps:
+        if prev is not None:
+            fails += ageing_fails(prev[0], prev[1], ti, s, dty)
+        for u in range(known, s['n']):      # created in this step, seen before the end-of-step ageing
+            if s['alive'][u] and s['active'][u] and abs(s['age'][u]) > 1e-9:
+                fails.append((dict(oracle='newborn-age'), f"ti={ti}: agent {u} created by a birth in this step has age {s['age'][u]:.5f}, expected 0")); break
+        known = s['n']; prev = (ti, s)
+    out = []; seen = set()
+    for sig, what in fails:
+        k = tuple(sorted(sig.items()))
+        if k not in seen: seen.add(k); out.append((sig, what))
+    return out, True
+
+
+def harness_exception(e):
+    """ was the exception raised by this module's own code (not by the simulation under test)? """
+    tb = e.__traceback__; last = None
+    while tb is not None: last = tb; tb = tb.tb_next
+    import os
+    here = os.path.dirname(os.path.dirname(os.path.abspath(__file__)))      # .../harness
+    return last is not None and os.path.abspath(last.tb_frame.f_code.co_filename).startswith(here)
+
+
+def run_zoo(cfg):
+    if has_pregnancy(cfg): return run_oracle(cfg, zoo=True)
+    return run_zoo_plain(cfg)[0]
+
+
+def search_zoo(ctx):
+    """ every zoo entry, one run each: the ageing clause for all; all pregnancy oracles (exclusive states, links, conception
+        eligibility, delivery timing, ages, prenatal / postnatal edges) for the entries with ss.Pregnancy """
+    for name, cfg in zoo_entries():
+        data = dict(kind='zoo', name=name, cfg=cfg)
+        try:
+            if has_pregnancy(cfg):
+                fails = run_oracle(cfg, zoo=True); ctx.count('zoo_pregnancy_runs')
+            else:
+                fails, aged = run_zoo_plain(cfg)
+                if not aged: ctx.count('zoo_ageing_off'); continue
+        except Exception as e:
+            if has_pregnancy(cfg) and not harness_exception(e):
+                # the unchanged zoo runs to completion; ss.Pregnancy raises when its own book-keeping is inconsistent
+                ctx.fail(dict(oracle='sim-raises', error=type(e).__name__), f'[zoo:{name}] sim raised {type(e).__name__}: {str(e)[:300]}', data)
+            else:
+                ctx.count('zoo_exceptions'); ctx.notes['last_zoo_exception'] = f'{name}: {type(e).__name__}: {e}'
+            continue
+        ctx.count('zoo_runs')
+        for sig, what in fails:
+            ctx.fail(sig, f'[zoo:{name}] ' + what, data)
+
+
+# ---------------------------------------------------------------------------
 
 def correspond(ctx):
     nsims = ctx.budget(10, 70)
-    max_lines = ctx.budget(1100, 6000)
+    max_lines = ctx.budget(1100, 6000) + 160      # + the pregnancy entries of the zoo
     lines = []; meta = []
     fam = fixed_families(ctx.rng)
     ctx.notes['fixed_families'] = [nm for nm, _ in fam]
-    cfgs = [c for _, c in fam]
+    cfgs = [(None, c) for _, c in fam]
+    # the zoo entries the model can follow (those with ss.Pregnancy): every do_step / finish_step call and every step's state
+    zoo_preg = [(nm, c) for nm, c in zoo_entries() if has_pregnancy(c)]
+    ctx.notes['zoo_correspond'] = [nm for nm, _ in zoo_preg]
+    cfgs += zoo_preg
     for i in range(nsims):
         cfg = gen_cfg(ctx.rng, ctx.thorough)
         if i < 4:   # make sure both burn-in settings and both layer layouts occur
             cfg['burnin'] = bool(i % 2); cfg['nets'] = ['prepost', 'maternal'][i // 2]
-        cfgs.append(cfg)
-    for cfg in cfgs:
+        cfgs.append((None, cfg))
+    for zname, cfg in cfgs:
+        sim_data = dict(kind='zoo', name=zname, cfg=cfg) if zname else dict(kind='sim', cfg=cfg)
+        tag = f'[zoo:{zname}] ' if zname else ''
         try:
-            sim, events, snaps = run_recorded(cfg)
+            sim, events, snaps = run_recorded(cfg, zoo=bool(zname))
         except Exception as e:
-            ctx.broke('correspondence', 'C19.run', f'generated sim raised {type(e).__name__}: {e}', data=dict(kind='sim', cfg=cfg))
+            if zname and harness_exception(e):
+                ctx.count('zoo_exceptions'); ctx.notes['last_zoo_exception'] = f'{zname}: {type(e).__name__}: {e}'; continue
+            ctx.broke('correspondence', 'C19.run', f'{tag}generated sim raised {type(e).__name__}: {e}', data=sim_data)
             continue
-        ctx.count('sims'); ctx.count('burnin_sims', int(cfg['burnin']))
+        burnin = bool(find_preg(sim).pars.burnin)
+        ctx.count('sims'); ctx.count('burnin_sims', int(burnin))
+        if zname: ctx.count('zoo_runs')
         # burn-in step list
         pr = find_preg(sim); p = pars_of(sim)
-        if cfg['burnin']:
+        if burnin:
             exp = list(np.arange(np.ceil(-1 * p['g']), 0, 1).astype(int))
             got = [ev['ti'] for ev in events if ev['op'] == 'dostep' and ev['simti'] == 0 and ev['ti'] < 0]
-            lines.append(' '.join(['burnsteps'] + pars_kv(p, snaps[0][1]))); meta.append(('burn', got, dict(kind='sim', cfg=cfg)))
+            lines.append(' '.join(['burnsteps'] + pars_kv(p, snaps[0][1]))); meta.append(('burn', got, sim_data))
         items = []
         nf = 0
         for ev in events:
             if ev['op'] == 'fertprob-error':
-                ctx.broke('correspondence', 'C19.fertprob', f"could not record make_fertility_prob_fn: {ev['err']}", data=dict(kind='sim', cfg=cfg)); continue
+                ctx.broke('correspondence', 'C19.fertprob', f"{tag}could not record make_fertility_prob_fn: {ev['err']}", data=sim_data); continue
             if ev['op'] == 'fertprob':
                 nf += 1
                 if nf <= 6 and len(ev['ages']) <= 400:
-                    items.append((fert_line(ev), ('fert', ev), dict(kind='sim', cfg=cfg, op='fertprob', ti=ev['ti'])))
+                    items.append((fert_line(ev), ('fert', ev), dict(sim_data, op='fertprob', ti=ev['ti'])))
                 continue
             if ev['pre']['n'] > 400: continue
             if ev.get('err'):
                 continue
-            items.append((event_line(ev), ('ev', ev), dict(kind='sim', cfg=cfg, op=ev['op'], ti=ev['ti'])))
+            items.append((event_line(ev), ('ev', ev), dict(sim_data, op=ev['op'], ti=ev['ti'])))
         for ti, s in snaps:
             if s['n'] > 400: continue
-            items.append((' '.join(['check'] + state_kv(s)), ('snap', ti, s), dict(kind='sim', cfg=cfg, op='check', ti=ti)))
+            items.append((' '.join(['check'] + state_kv(s)), ('snap', ti, s), dict(sim_data, op='check', ti=ti)))
         # bound the driver input: keep every event of the first 12 steps, then every second
         for j, it in enumerate(items):
             if len(lines) >= max_lines: break
@@ -566,12 +724,13 @@ def correspond(ctx):
         if ml == 'bad-op':
             ctx.broke('correspondence', 'C19.' + op, 'model rejected the operation line', data=dict(line=line[:1500]))
             continue
+        ztag = lambda d: f"[zoo:{d['name']}] " if isinstance(d, dict) and d.get('kind') == 'zoo' else ''
         if m[0] == 'burn':
             got = m[1]
             mg = [] if ml == 'ok -' else [int(x) for x in ml.split()[1].split(',')]
             ctx.case(line, True)
             if mg != got:
-                ctx.broke('correspondence', 'C19.burnin', f'burn-in steps: model {mg}, code ran do_step at {got}', data=m[2])
+                ctx.broke('correspondence', 'C19.burnin', f'{ztag(m[2])}burn-in steps: model {mg}, code ran do_step at {got}', data=m[2])
             continue
         kind, data = m[0], m[1]
         if kind[0] == 'fert':
@@ -579,7 +738,7 @@ def correspond(ctx):
             ctx.case(line, bool(len(ev['ages'])))
             d = fert_compare(ml, ev)
             if d:
-                ctx.broke('correspondence', 'C19.fertprob', f"make_fertility_prob_fn ({ev['kind']} fertility) at ti={ev['ti']}: {d}", data=data)
+                ctx.broke('correspondence', 'C19.fertprob', f"{ztag(data)}make_fertility_prob_fn ({ev['kind']} fertility) at ti={ev['ti']}: {d}", data=data)
             continue
         if kind[0] == 'ev':
             ev = kind[1]
@@ -587,7 +746,7 @@ def correspond(ctx):
             ctx.case(line, nontrivial, sample=dict(op=op, ti=ev['ti'], conceive=ev.get('conceive'), n=int(ev['pre']['n'])))
             d = compare_state(ml, ev['post'])
             if d:
-                ctx.broke('correspondence', 'C19.' + op, f"Pregnancy.{'do_step' if op == 'dostep' else 'finish_step'} at ti={ev['ti']}: state after the call differs from the model: {d}", data=data)
+                ctx.broke('correspondence', 'C19.' + op, f"{ztag(data)}Pregnancy.{'do_step' if op == 'dostep' else 'finish_step'} at ti={ev['ti']}: state after the call differs from the model: {d}", data=data)
         else:
             ti, s = kind[1], kind[2]
             nontrivial = bool(s['pregnant'].any() or s['postpartum'].any())
@@ -595,7 +754,7 @@ def correspond(ctx):
             bits = dict(p.split('=') for p in ml.split()[1:])
             bad = [k for k, v in bits.items() if v != '1' and not (k == 'prenatal' and not s['has_pre']) and not (k == 'postnatal' and not s['has_post'])]
             if bad:
-                ctx.broke('correspondence', 'C19.invariant', f"ti={ti}: the model's invariant check fails on the observed state: {bad}", data=data)
+                ctx.broke('correspondence', 'C19.invariant', f"{ztag(data)}ti={ti}: the model's invariant check fails on the observed state: {bad}", data=data)
 
 
 def search(ctx):
@@ -615,11 +774,12 @@ def search(ctx):
         ctx.count('oracle_sims')
         for sig, what in fails:
             ctx.fail(sig, what, dict(kind='sim', cfg=cfg))
+    search_zoo(ctx)
 
 
 def replay(ctx, data):
     try:
-        fails = run_oracle(data['cfg'])
+        fails = run_zoo(data['cfg']) if data.get('kind') == 'zoo' else run_oracle(data['cfg'])
     except Exception as e:
         print('  sim raises', type(e).__name__, str(e)[:300]); return True
     for sig, what in fails[:6]:
